@@ -34,6 +34,26 @@ std::string run_sr(const Args& a) {
 	rec.log.push_back(rc != 0 || g_calls ? "ERR:" + str(g_line) + ":" + str(g_calls) : std::string("OK"));
 	return join(rec.log);
 }
+// `sri <ext> <hex>`: the real reader driven step by step: accept, then parse(Incremental) while more()  (model: SmodelsIn.readInc; C05_modes)
+std::string run_sri(const Args& a) {
+	if (a.size() != 2) return "bad-op";
+	std::istringstream in(unhex(a[1]));
+	Recorder rec;
+	Potassco::SmodelsInput::Options opts;
+	if (a[0] == "1") opts.enableClaspExt();
+	Potassco::SmodelsInput reader(rec, opts);
+	std::string status = "OK";
+	int exc = 0;
+	try {
+		if (!reader.accept(in)) { status = "ERR:" + str(reader.line()) + ":1"; }
+		else {
+			do { if (!reader.parse(Potassco::ProgramReader::Incremental)) { status = "ERR:" + str(reader.line()) + ":1"; break; } } while (reader.more());
+		}
+	}
+	catch (const std::exception&) { ++exc; status = "ERR:" + str(reader.line()) + ":" + str(exc); }
+	rec.log.push_back(status);
+	return join(rec.log);
+}
 // `so <ext><cEdge><cHeu><filter> <hex>` : reads with the real SmodelsInput and the given option set (four 0/1 digits)
 std::string run_so(const Args& a) {
 	if (a.size() != 2 || a[0].size() != 4) return "bad-op";
@@ -52,4 +72,5 @@ std::string run_so(const Args& a) {
 hv::Reg r1("sw", &run_sw);
 hv::Reg r3("so", &run_so);
 hv::Reg r2("sr", &run_sr);
+hv::Reg r2i("sri", &run_sri);
 }
